@@ -13,7 +13,10 @@ def op_units(prop):
     for m in OP_MODULES:
         mod = importlib.import_module(m)
         for c in getattr(mod, "CONTRACTS", []):
-            if prop in c.props:
+            # C09 (exceptions of user functions become on_error): every contract whose operator takes a user function is a unit of
+            # it - the refinement obligations include "no exception escapes the handler" and the on_error the spec prescribes
+            takes_callbacks = prop == "C09" and any("callback" in str(v) for v in c.params.values())
+            if prop in c.props or takes_callbacks:
                 out.append({"runner": "k1", "module": m, "name": c.name, "prop": prop, "id": c.uid})
     return out
 
@@ -86,7 +89,7 @@ FAMILIES = {
     "C03": ["own", "class", "subscribe", "compose", "srcfac"],
     "C43": ["lockset"],
     "C42": ["catchsched"],
-    "C09": ["guard"],
+    "C09": ["guard", "op"],
     "C30": ["tramp"],
     "C35": ["periodic"],
     "C37": ["srcfac"],
